@@ -102,7 +102,15 @@ def exact_diagonal_flag(ctx, rep, rule: str) -> None:
             tol.append(_norm(c))
     cmp_tol = [n for n in ast.walk(fi.node) if isinstance(n, ast.Compare) and any(isinstance(op, (ast.Lt, ast.LtE)) for op in n.ops) and any(isinstance(x, ast.Constant) and isinstance(x.value, float) for x in ast.walk(n))]
     exact = [c for c in A.calls(fi.node, nested=True) if isinstance(c.func, ast.Attribute) and c.func.attr in ("any", "count_nonzero", "all")]
-    rep.ob(rule, "diagonal-flag-is-exact", not tol and not cmp_tol and bool(exact), fi.loc(), "check_diagonal must test off-diagonal entries for exact zero" + (f"; tolerance-based comparison found: {tol + [_norm(c) for c in cmp_tol]} — a nearly-diagonal factor would keep the flag and get the identity as eigenbasis / an elementwise root" if (tol or cmp_tol) else ""), sample=True)
+    # an ordering comparison anywhere in the function, or a parameter besides the matrix, is a tolerance knob
+    ordering = [n for n in ast.walk(fi.node) if isinstance(n, ast.Compare) and any(isinstance(op, (ast.Lt, ast.LtE, ast.Gt, ast.GtE)) for op in n.ops)]
+    knobs = [p for p in fi.params[1:]]
+    cmp_tol = cmp_tol + [c for c in ordering if c not in cmp_tol]
+    rep.ob(rule, "diagonal-flag-is-exact", not tol and not cmp_tol and not knobs and bool(exact), fi.loc(), "check_diagonal must test off-diagonal entries for exact zero" + (f"; tolerance-based comparison found: {tol + [_norm(c) for c in cmp_tol]}; extra parameters {knobs} — a nearly-diagonal factor would keep the flag and get the identity as eigenbasis / an elementwise root" if (tol or cmp_tol or knobs) else ""), sample=True)
+    # every caller passes the matrix and nothing else
+    callers = [(g, c) for g in repo.funcs.values() for c in A.calls(g.node) if repo.owner(c) is g and A.callee_name(repo, g.module, c).endswith("check_diagonal") and isinstance(c.func, ast.Name)]
+    loose = [(g, c) for g, c in callers if len(c.args) != 1 or c.keywords]
+    rep.ob(rule, "diagonal-flag-callers-pass-the-matrix-only", bool(callers) and not loose, loose[0][0].loc(loose[0][1]) if loose else fi.loc(), f"{len(callers)} call site(s) of check_diagonal: each passes the matrix only" + (f"; `{_norm(loose[0][1])[:90]}` passes more" if loose else ""))
     # the flag can only go from diagonal to non-diagonal, under the check
     chk = repo.func(f"{BASE}._check_factor_matrix_for_diagonality_nan_and_inf")
     first = next((n for n in chk.node.body if isinstance(n, ast.If)), None)
@@ -165,6 +173,10 @@ def run(ctx, rep) -> None:
     rep.attempt("eigenvector_dispatch", eigenvector_dispatch, ctx, rep, "C03.8")
     rep.rule("C03.5", "the diagonal flag is exact (no tolerance) and is cleared before the matrix routine sees a non-diagonal factor")
     rep.attempt("exact_diagonal_flag", exact_diagonal_flag, ctx, rep, "C03.5")
+    rep.rule("C03.9", "the eigendecomposition hands back eigh's outputs unconverted (device move only): a double-precision retry reaches the parameter-precision store without an intermediate rounding")
+    from .c12 import decomposition_structure
+
+    rep.attempt("decomposition_structure", decomposition_structure, ctx, rep, "C03.9")
     rep.rule("C03.1", "the eigenbasis refresh precedes the corrected-eigenvalue update, which runs on every update_preconditioners call")
     rep.rule("C03.2", "precondition(): rotate -> divide -> rotate back, same basis / selector / guard, transposed contraction; the accumulator update rotates under the same predicate; ignored dims are only permuted")
     rep.rule("C03.3", "basis refreshed only under the schedule flag; eigenvectors and corrected eigenvalues written only by their own updates")
